@@ -56,7 +56,7 @@ def cases(tier, seed):
     n, per, nc = (20, 20, 36) if tier == "quick" else (600, 32, 1500)
     out = [{"kind": "mol", "seed": seed * 5003 + i, "n": per} for i in range(n)]
     out += [{"kind": "complex", "seed": seed * 6007 + i, "variant": ["plain", "collide", "nocollide", "waterH",
-                                                                     "ions", "waterclash", "ligaltloc"][i % 7]}
+                                                                     "ions", "waterclash", "ligaltloc", "ffresname"][i % 8]}
             for i in range(nc)]
     return out
 
@@ -206,7 +206,12 @@ def run_complex(spec, res):
                                                                    "VAL", "ASN"]), rng)
     c0 = S.centroid(pep)
     entries = [{"id": "A", "start": 1, "residues": pep}]
-    het = [het_residue(mol, "LIG", c0 + np.array([25.0, 0, 0]))]
+    lig_resn = "LIG"
+    if variant == "ffresname":
+        # the ligand residue carries a name the selected force field has rows for (CHARMM: ADP, ATP, NAD, HEME ...):
+        # atoms matched by name there must still be written once, with the ligand's parameters
+        lig_resn = rng.choice(["ADP", "ATP", "NAD", "THF", "SEP"])
+    het = [het_residue(mol, lig_resn, c0 + np.array([25.0, 0, 0]))]
     collide_names = set()
     if variant in ("collide", "nocollide"):
         other = mol2gen.random_molecule(rng, 1, 4)
@@ -241,7 +246,7 @@ def run_complex(spec, res):
         # the ligand (and a few protein atoms) carry alternate locations A/B: the first one counts, once
         out_items = []
         for it in items:
-            if isinstance(it, dict) and (it["resn"] == "LIG" or (it["name"] in ("CB", "OG", "CG") and rng.random() < 0.3)):
+            if isinstance(it, dict) and (it["resn"] == lig_resn or (it["name"] in ("CB", "OG", "CG") and rng.random() < 0.3)):
                 blocked = False
                 out_items.append(dict(it, alt="A", occ=0.6))
                 out_items.append(dict(it, alt="B", occ=0.4, x=it["x"] + 0.4, y=it["y"] - 0.3, z=it["z"] + 0.2))
@@ -249,20 +254,21 @@ def run_complex(spec, res):
                 out_items.append(it)
         if rng.random() < 0.5:
             # blocked layout: all A records of the ligand, then all B records
-            lig = [it for it in out_items if isinstance(it, dict) and it["resn"] == "LIG"]
+            lig = [it for it in out_items if isinstance(it, dict) and it["resn"] == lig_resn]
             first = out_items.index(lig[0])
-            rest = [it for it in out_items if not (isinstance(it, dict) and it["resn"] == "LIG")]
+            rest = [it for it in out_items if not (isinstance(it, dict) and it["resn"] == lig_resn)]
             k = rest.index(out_items[first - 1]) + 1 if first > 0 else 0
             out_items = rest[:k] + [it for it in lig if it["alt"] == "A"] + [it for it in lig if it["alt"] == "B"] + rest[k:]
         items = out_items
         pdbfmt.renumber(items)
     text = pdbfmt.to_text(items)
-    ff = rng.choice(["AMBER", "PARSE", "CHARMM"])
+    ff = rng.choice(["AMBER", "PARSE", "CHARMM"]) if variant != "ffresname" else rng.choice(["CHARMM", "CHARMM", "AMBER"])
     opts = [f"--ff={ff}", "--ligand={dir}/lig.mol2"]
     r = pipeline.run(text, opts, extra_files={"lig.mol2": lig_text}, workname="c16")
     lig_names = set(lp["names"])
     water_collision = bool(lig_names & {"O", "H1", "H2"})
-    feature = "other-hetero-shares-atom-name" if collide_names else \
+    feature = "ligand-residue-name-known-to-force-field" if variant == "ffresname" else \
+        "other-hetero-shares-atom-name" if collide_names else \
         "water-atom-name-equals-ligand-atom-name" if water_collision else "no-name-collision"
     wit = {"variant": variant, "ligand": src, "ff": ff, "seed": spec["seed"], "feature": feature,
            "ligand_atom_names": sorted(lig_names)[:40]}
@@ -275,7 +281,7 @@ def run_complex(spec, res):
         res.violate(f"complex/{clause}/{feature}", f"--ligand run failed: {type(r.exc).__name__} {msg}", **wit)
         return
     pq = pipeline.parse_pqr(r.pqr_text)
-    lig_lines = [a for a in pq if a["resn"] == "LIG"]
+    lig_lines = [a for a in pq if a["resn"] == lig_resn]
     want = Counter(lp["names"])
     got = Counter(a["name"] for a in lig_lines)
     if got != want:
@@ -293,7 +299,7 @@ def run_complex(spec, res):
         res.count("complex_differentials")
         base = {(a["resn"], a["resi"], a["name"], a["chain"]): (a["qs"], a["rs"]) for a in pipeline.parse_pqr(r0.pqr_text)}
         for a in pq:
-            if a["resn"] == "LIG":
+            if a["resn"] == lig_resn:
                 continue
             key = (a["resn"], a["resi"], a["name"], a["chain"])
             if key not in base:
